@@ -57,9 +57,22 @@ type assignLoc struct {
 	ref    *Term
 	text   string
 	cell   *VPtr
+	guard  *Term // nil: unconditional; otherwise the location is assignable only when guard holds (pre-state)
+	bv     *Term // "ghostset": the bound key variable
+	cond   *Term // "ghostset": which keys (over bv) of ghost map `text` may be assigned
+}
+
+func (l assignLoc) g() *Term {
+	if l.guard == nil {
+		return True
+	}
+	return l.guard
 }
 
 type Exec struct {
+	noAllocWF     bool
+	nReturnCovers int
+	callCovers    map[string]int
 	e         *Engine
 	top       *ssa.Function
 	spec      *FuncSpec
@@ -191,6 +204,35 @@ func (x *Exec) freshVal(st *State, t types.Type, name string) Val {
 	return v
 }
 
+// freshResult: a fresh value for the result of a call. Unlike freshVal it does not claim that
+// the identities in it were allocated before the call (the callee may have created them; the
+// caller marks them allocated in the post-state).
+func (x *Exec) freshResult(st *State, t types.Type, name string) Val {
+	e := x.e
+	ls := e.leaves(t)
+	ts := make([]*Term, len(ls))
+	for i, l := range ls {
+		n := name
+		if l.Name != "" {
+			n += "." + l.Name
+		}
+		ts[i] = e.fresh(n, l.S)
+	}
+	v := e.fromLeaves(t, ts)
+	x.noAllocWF = true
+	g := x.wf(st, t, v)
+	x.noAllocWF = false
+	st.assume(g)
+	return v
+}
+
+func (x *Exec) allocFact(st *State, id *Term) *Term {
+	if x.noAllocWF {
+		return True
+	}
+	return st.isAlloc(id)
+}
+
 // wf: typing / well-formedness facts of a value that comes from the environment
 func (x *Exec) wf(st *State, t types.Type, v Val) *Term {
 	e := x.e
@@ -203,18 +245,18 @@ func (x *Exec) wf(st *State, t types.Type, v Val) *Term {
 			return e.ar.InRange(n, u.T)
 		}
 	case VSlice:
-		return And(st.sliceWF(u), st.isAlloc(u.Reg))
+		return And(st.sliceWF(u), x.allocFact(st, u.Reg))
 	case VString:
 		return st.stringWF(u)
 	case VRef:
-		return st.isAlloc(u.T)
+		return x.allocFact(st, u.T)
 	case VPtr:
 		if u.Reg != nil {
-			return And(st.isAlloc(u.Reg), e.ar.Cmp(token.LEQ, tInt, e.ar.IConst(0), u.Idx), e.ar.Cmp(token.LEQ, tInt, u.Idx, e.rsize(u.Reg)),
+			return And(x.allocFact(st, u.Reg), e.ar.Cmp(token.LEQ, tInt, e.ar.IConst(0), u.Idx), e.ar.Cmp(token.LEQ, tInt, u.Idx, e.rsize(u.Reg)),
 				e.ar.Cmp(token.LEQ, tInt, e.rsize(u.Reg), e.ar.Const(tInt, bigPow2(47))))
 		}
 	case VIface:
-		return And(st.isAlloc(u.Ref), e.ar.Cmp(token.LEQ, tInt, e.ar.IConst(0), u.Tag), Implies(Eq(u.Tag, e.ar.IConst(0)), Eq(u.Ref, e.ar.IConst(0))))
+		return And(x.allocFact(st, u.Ref), e.ar.Cmp(token.LEQ, tInt, e.ar.IConst(0), u.Tag), Implies(Eq(u.Tag, e.ar.IConst(0)), Eq(u.Ref, e.ar.IConst(0))))
 	case VStruct:
 		s := t.Underlying().(*types.Struct)
 		var cs []*Term
